@@ -17,6 +17,17 @@ import vlib
 
 LEVEL = "model_checking"
 
+# state machines of the extension round (IoStream.tla): (module, cfg), and their vacuity guards
+EXT_MC = [("MCIoStream", "MC_IoStream.cfg"), ("MCScopedRdbuf", "MC_ScopedRdbuf.cfg")]
+EXT_GUARDS = [
+    ("MCIoStream", "MC_IoStream_guard_peek_consumes.cfg", "LawPeekPure"),
+    ("MCIoStream", "MC_IoStream_guard_to_string_from_start.cfg", "LawToStringComplete"),
+    ("MCIoStream", "MC_IoStream_guard_extract_keeps_blanks.cfg", "LawExtract"),
+    ("MCIoStream", "MC_IoStream_guard_expect_never_fails.cfg", "LawExtract"),
+    ("MCScopedRdbuf", "MC_ScopedRdbuf_guard_close_restores_original.cfg", "LawNesting"),
+    ("MCScopedRdbuf", "MC_ScopedRdbuf_guard_close_keeps_buffer.cfg", "LawRestored"),
+]
+
 GUARDS = [
     ("MC_Codec_guard_write_roundtrip.cfg", "LawBytesRoundTrip"),
     ("MC_Codec_guard_write_layout.cfg", "LawBytesLayout"),
@@ -30,6 +41,7 @@ GUARDS = [
     ("MC_Codec_guard_dec_bigroundtrip.cfg", "LawDecBigRoundTrip"),
     ("MC_Codec_guard_decloc_LawDecLocRoundTrip.cfg", "LawDecLocRoundTrip"),
     ("MC_Codec_guard_decloc_LawDecLocShape.cfg", "LawDecLocShape"),
+    ("MC_Codec_guard_convert.cfg", "LawConvert"),
 ]
 
 NARROW_FN = {"locale": "narrow_locale", "env": "narrow", "fcppt_locale": "from_std_wstring_locale", "fcppt": "from_std_wstring"}
@@ -115,6 +127,14 @@ def classes_of(ctx, rec):
         ctx.count_class((f, rec["E"], len(rec["r"])))
     elif f == "vec":
         ctx.count_class((f, rec["k"], rec["T"], rec["N"], rec["ch"], tuple(sorted(set(x["s"] for x in rec["xs"])))))
+    elif f == "iostream":
+        ctx.count_class((f, rec["ch"], min(len(rec["text"]), 4), tuple(sorted(set(o[0] for o in rec["ops"]))), sum(1 for o in rec["obs"] if o == [])))
+    elif f == "rdbuf":
+        ctx.count_class((f, rec["ch"], rec["nb"], max([0] + [sum(1 for o in rec["ops"][:i + 1] if o[0] == "open") - sum(1 for o in rec["ops"][:i + 1] if o[0] == "close") for i in range(len(rec["ops"]))])))
+    elif f == "convert":
+        ctx.count_class((f, rec["T"], rec["d"] == rec["d"][::-1]))
+    elif f in ("nstring", "stypedef", "matrix", "box", "enum_names", "literal"):
+        ctx.count_class((f, rec.get("k"), rec.get("T"), rec.get("ch"), rec.get("E"), rec.get("src")))
     elif f == "utf8":
         def cls(c):
             return 1 if c < 128 else 2 if c < 2048 else 3 if c < 65536 else 4
@@ -157,6 +177,17 @@ def function_names(rec, why):
     return [(f, sorted(why), "")]
 
 
+def observe(ctx, rec, why, line):
+    """Disagreements outside the statement of the property: counted and sampled in the evidence
+    (coverage.observations), never a rejected event."""
+    if not why:
+        return
+    obs = ctx.extra.setdefault("observations", {})
+    key = "%s:%s" % (rec.get("dist") or rec["f"], "+".join(sorted(w[4:] for w in why)))
+    o = obs.setdefault(key, {"count": 0, "sample": line[:500]})
+    o["count"] += 1
+
+
 def judge_file(ctx, path, what, rc, out, count=True):
     lines, tail = vlib.check_trace_file(path)
     if rc != 0:
@@ -195,7 +226,12 @@ def judge_file(ctx, path, what, rc, out, count=True):
             if "HARNESS-PRECONDITION" in b["why"] or "unknown-record-kind" in b["why"]:
                 pre.append(chunk[b["l"] - 1][:300])
                 continue
-            for fn, why, via in function_names(rec, b["why"]):
+            why_all = b["why"]
+            observe(ctx, rec, [w for w in why_all if w.startswith("obs:")], chunk[b["l"] - 1])
+            why_in = [w for w in why_all if not w.startswith("obs:")]
+            if not why_in:
+                continue
+            for fn, why, via in function_names(rec, why_in):
                 ctx.reject("C15:%s:%s" % (fn, "+".join(why)),
                            "%s: Codec.tla cannot explain %s %s(%s); %d of %d records of this chunk rejected; record: %s" % (
                                what, fn, via + " " if via else "", ",".join(why), nbad, n, chunk[b["l"] - 1][:600]),
@@ -220,7 +256,15 @@ def model_checks(ctx, thorough):
         if inv not in r.invariant_violated:
             raise vlib.Infra("vacuity guard: %s did not violate %s" % (cfg, inv))
         return {"cfg": cfg, "violates": inv}
-    ctx.extra["vacuity_guards"] = vlib.parallel(guard, GUARDS, workers=5)
+    vlib.parallel(lambda mc: vlib.tlc_mc(ctx, mc[0], mc[1], workers=4, timeout=3000, tag=mc[0], xmx="2g"), EXT_MC)
+
+    def eguard(g):
+        mod, cfg, inv = g
+        r = vlib.tlc(mod, cfg, workers=2, timeout=1500, tag=mod + "_" + cfg, xmx="1500m")
+        if inv not in r.invariant_violated:
+            raise vlib.Infra("vacuity guard: %s did not violate %s" % (cfg, inv))
+        return {"cfg": cfg, "violates": inv}
+    ctx.extra["vacuity_guards"] = vlib.parallel(guard, GUARDS, workers=5) + vlib.parallel(eguard, EXT_GUARDS, workers=6)
 
 
 def run(ctx):
@@ -237,6 +281,9 @@ def run(ctx):
                 ctx.sample(json.loads(l))
     os.unlink(tpath)
     ctx.exhaustive = False
+    ctx.extra.setdefault("observations", {})
+    for k, o in ctx.extra["observations"].items():
+        print("OBSERVATION (outside the statement, not a verdict): %s x%d e.g. %s" % (k, o["count"], o["sample"][:200]))
     ctx.extra["exhaustive_parts"] = (
         "all 8-bit and 16-bit values for io::write/read and swap; all 16-bit values for the decimal round trip; "
         "all enumerators of the 4 fixture enums; all vectors with components in -3..3 (0..6 unsigned) for N <= 4; "
